@@ -72,7 +72,10 @@ class World:
             if len(args) == 2:
                 return self.point(args[0], args[1])
         if isinstance(recv, self.Pt) and name and f"polygon.Point2D.{name}" in self.ctx.model.funcs:
-            return rn.call_fn(self.ctx.fn(f"polygon.Point2D.{name}"), [recv] + list(args), kwargs)
+            target = self.ctx.fn(f"polygon.Point2D.{name}")
+            if target.kind in ("static", "class"):                     # self._as_point(x): no receiver is passed
+                return rn.call_fn(target, list(args), kwargs)
+            return rn.call_fn(target, [recv] + list(args), kwargs)
         return NotImplemented
 
     def runner(self):
